@@ -99,6 +99,16 @@ claim("C20",
       "sequential run of each scenario as the echo reference. Interleavings finer than the gates are left to the Go scheduler under load.",
       "TLC exhaustive model checking of interleavings + schedule replay on generated code under -race + TLC trace validation", "DESIGN.md 6 (C20)")
 
+claim("C09",
+      "GenHistory.tla (output directory as path -> owner/content class/stamp; Start/Again/Wipe/Render/Finish of gen and example with append-mode and SkipExist "
+      "semantics; user edits, strays, deletions; a hidden per-process nonce) is model-checked exhaustively over all histories of length <=4 (quick) / <=6 "
+      "(thorough) with 11 deviation guards; TLC-emitted and seeded random histories are replayed with the REAL goa binary built from the repo (goa gen / goa "
+      "example in scratch modules), the whole tree is hashed after every step and the resulting trace is validated by TLC; determinism: 10-40 fresh-process "
+      "generations per design under varied environment must hash identically, and Generate is repeated inside one process.",
+      "Trusted: sha256 snapshots, the projection of files onto content classes, the hand-written DSL designs (smalla, smallb, rich, types); the system clock "
+      "cannot be faked (environment variation covers GOMAXPROCS, TZ, locale, USER, cwd depth).",
+      "TLC exhaustive model checking of histories + replay with the real goa CLI + TLC trace validation", "DESIGN.md 6 (C09)")
+
 for p in ALL:
     if p not in CLAIMED:
         NOT_APPLICABLE[p] = "check not built yet in this revision (planned with the same technique, see DESIGN.md section 6)"
